@@ -409,16 +409,21 @@ fn main() {
             // "seq": the same threads, one after the other (each joined before the next starts): tells whether a failure
             // needs the threads to overlap at all
             let seq = a.get(6).map(|x| x == "seq").unwrap_or(false);
-            let barrier = Arc::new(Barrier::new(if seq { 1 } else { threads }));
+            // rounds > 1 (hammer workloads): the same threads are spawned again in the same interpreter - the schedule of every
+            // round differs (the scheduler's generator runs on), the interpreter's start-up cost is paid once
+            let rounds: u64 = a.get(7).and_then(|x| x.parse().ok()).unwrap_or(1).max(1);
             // Relaxed counters only: logging must not add a happens-before edge that could hide a race
             let mismatches = Arc::new(AtomicU64::new(0));
             let first_bad = Arc::new(AtomicU64::new(u64::MAX));
             // global completion order of the calls (Relaxed: adds no happens-before edge): the visible trace of the schedule
+            let mut all_orders = Vec::new();
+            for _round in 0..rounds {
+            let barrier = Arc::new(Barrier::new(if seq { 1 } else { threads }));
             let order = Arc::new(AtomicU64::new(0));
             let mut logs: Vec<Vec<u64>> = Vec::new();
             let mut hs = Vec::new();
             let mut off = 0;
-            for (t, p) in plan.into_iter().enumerate() {
+            for (t, p) in plan.clone().into_iter().enumerate() {
                 let (b, mm, fb, ord) = (barrier.clone(), mismatches.clone(), first_bad.clone(), order.clone());
                 let exp: Vec<u64> = expected[off..off + p.len()].to_vec();
                 off += p.len();
@@ -444,7 +449,9 @@ fn main() {
             for h in hs {
                 logs.push(h.join().expect("thread panicked"));
             }
-            println!("ORDER {}", logs.iter().map(|l| l.iter().map(|x| x.to_string()).collect::<Vec<_>>().join(",")).collect::<Vec<_>>().join(" | "));
+            all_orders.push(logs.iter().map(|l| l.iter().map(|x| x.to_string()).collect::<Vec<_>>().join(",")).collect::<Vec<_>>().join(" | "));
+            }
+            println!("ORDER {}", all_orders.join(" ;; "));
             let m = mismatches.load(Ordering::Relaxed);
             if m != 0 {
                 let fb = first_bad.load(Ordering::Relaxed);
